@@ -176,7 +176,7 @@ def handle_connect_rules(A, fl, rule):
     ps = [p for p in A.paths(en, fi, srv) if p.outcome != 'cut']
     SID = 'self.generate_id()'
     S = '%s.%s(self, %s)' % (fl['smod'], sockname, SID)
-    n_acc = n_rej = n_ws = 0
+    n_acc = n_rej = n_ws = n_bad_order = 0
     for p in ps:
         v = PV(p)
         if any(e.kind == 'exc' and e.cls is not None for e in v.ev):
@@ -203,6 +203,7 @@ def handle_connect_rules(A, fl, rule):
                 behaviour='the connect handler runs before the session exists / another packet '
                           'precedes OPEN / no PING is ever scheduled')
         if not ok:
+            n_bad_order += 1
             continue
         tc = unawait(v.ev[trig[0][0]].expr)
         A.check(len(tc.args) == 3 and txt(tc.args[1]) == SID and txt(tc.args[2]) == 'environ' and
@@ -318,9 +319,10 @@ def handle_connect_rules(A, fl, rule):
                         'when none is configured' % fl['name'], site,
                         key='%s-cookie-unset' % fl['name'], detail=txt(hd),
                         behaviour='a session cookie is sent although none is configured')
-    A.floor(rule, '%s accepted polling opens' % fl['name'], n_acc, 3)
-    A.floor(rule, '%s rejected opens' % fl['name'], n_rej, 1)
-    A.floor(rule, '%s websocket opens' % fl['name'], n_ws, 1)
+    if not n_bad_order:
+        A.floor(rule, '%s accepted polling opens' % fl['name'], n_acc, 3)
+        A.floor(rule, '%s rejected opens' % fl['name'], n_rej, 1)
+        A.floor(rule, '%s websocket opens' % fl['name'], n_ws, 1)
     A.sample({'rule': rule + '.open-fields', 'flavour': fl['name'],
               'pingInterval': 'int((ping_interval + grace) * 1000)'})
 
@@ -1418,7 +1420,6 @@ def service_task_rules(A, fl, rule):
         return isinstance(st, ast.If) and 'len(self.sockets) == 0' in s
     ps = [p for p in A.paths(A.enum(loop_bound=1, opaque=opaque, max_paths=40000), fi, srv)
           if p.outcome != 'cut']
-    EL = '_elem(self.sockets.copy().values(), 0)'
     n_chk = n_del = 0
     for p in ps:
         v0 = PV(p)
@@ -1426,6 +1427,7 @@ def service_task_rules(A, fl, rule):
         for mi, i in enumerate(marks):
             if not v0.ev[i].pol:
                 continue
+            EL = '_elem(%s, 0)' % txt(v0.ev[i].expr)
             A.check(txt(v0.ev[i].expr) == 'self.sockets.copy().values()', rule + '.sweep',
                     '%s: the sweep visits every session of a copy of the table' % name,
                     A.site(fi, v0.node(i)), key='%s-sweep-iter' % name,
@@ -1485,7 +1487,7 @@ def service_task_rules(A, fl, rule):
 def generate_id_rules(A, rule):
     fi = A.func('base_server.BaseServer.generate_id')
     bs = fi.cls
-    ps = [p for p in A.paths(A.enum(follow_handlers=False), fi, bs) if p.outcome == 'return']
+    ps = [p for p in A.paths(A.enum(follow_handlers=True), fi, bs) if p.outcome == 'return']
     A.floor(rule, 'generate_id paths', len(ps), 1)
     ok_all = len(ps) == 1
     for p in ps:
